@@ -693,6 +693,8 @@ def arith_cases(draw):
     vb = draw(st.sampled_from(["same", "event"]))
     case["vmode"] = vb
     case["v"] = draw(nums(N))
+    # the source distribution has already been used on the Cholesky path (scale_tril cached) before the operation
+    case["warm"] = draw(st.booleans())
     return case
 
 
@@ -706,6 +708,12 @@ def run_arith(case, ctx: Ctx):
     others = [Dist(o, ctx, f"construct_other{i}") for i, o in enumerate(case.get("other", []))]
     if D.bc == "full" and any(o.bc != "full" for o in others):
         ctx.cls = "|".join([D.rep_label, "otherbc", op])
+    if case.get("warm"):
+        ev0 = torch.linalg.eigvalsh(D.C)
+        if float(ev0.min()) > 0 and float(ev0.max() / ev0.min()) <= 1e8:
+            with ctx.observing("warm.scale_tril"):
+                D.d.scale_tril
+            ctx.label("op.warm_scale_tril")
     if op == "add_scalar":
         with ctx.observing(op):
             r = D.d + case["c"]
